@@ -644,3 +644,106 @@ func runServerCtxStop(k int) (line string) {
 	}
 	return fmt.Sprintf("ret %d after %d err - ; done %d onclose %d %d ; panics 0", ret, after, done, lo, hi)
 }
+
+// runServerReconnect (`case udp srvstop k<N>r stop`): k raw peers each have a connection on the datagram server; the
+// application closes those connections (cc.Close()) and every peer sends its next datagram right away — before any
+// housekeeping pass — so the server makes a new connection for it.  Then Stop().  Every on-close callback of the old and of
+// the new connections must have run exactly once, and every connection's done signal must be completed.
+func runServerReconnect(k int) (line string) {
+	defer func() {
+		if r := recover(); r != nil {
+			line = fmt.Sprintf("panic %v", r)
+		}
+	}()
+	l, err := coapNet.NewListenUDP("udp4", "127.0.0.1:0")
+	if err != nil {
+		return "conn-error"
+	}
+	defer l.Close()
+	counter := &onCloseCounter{}
+	var ccMu sync.Mutex
+	var srvConns []*udpclient.Conn
+	r := mux.NewRouter()
+	_ = r.Handle("/x", mux.HandlerFunc(func(w mux.ResponseWriter, req *mux.Message) {
+		_ = w.SetResponse(codes.Content, message.TextPlain, nil)
+	}))
+	s := udp.NewServer(options.WithMux(r), options.WithErrors(func(error) {}),
+		options.WithOnNewConn(func(cc *udpclient.Conn) {
+			counter.add(func(f func()) { cc.AddOnClose(f) })
+			ccMu.Lock()
+			srvConns = append(srvConns, cc)
+			ccMu.Unlock()
+		}))
+	served := make(chan error, 1)
+	go func() { served <- s.Serve(l) }()
+	time.Sleep(30 * time.Millisecond)
+	var socks []*net.UDPConn
+	defer func() {
+		for _, c := range socks {
+			c.Close()
+		}
+	}()
+	ask := func(c *net.UDPConn, mid byte) bool {
+		_, _ = c.Write([]byte{0x41, 0x01, 0x50, mid, 0xD0 + mid%16, 0xb1, 'x'}) // CON GET /x
+		buf := make([]byte, 256)
+		_ = c.SetReadDeadline(time.Now().Add(time.Second))
+		n, err := c.Read(buf)
+		return err == nil && n >= 4
+	}
+	for i := 0; i < k; i++ {
+		c, err := net.DialUDP("udp4", nil, l.LocalAddr().(*net.UDPAddr))
+		if err != nil {
+			return "conn-error"
+		}
+		socks = append(socks, c)
+		if !ask(c, byte(i)) {
+			return "setup-failed"
+		}
+	}
+	ccMu.Lock()
+	first := append([]*udpclient.Conn(nil), srvConns...)
+	ccMu.Unlock()
+	if len(first) != k {
+		return "setup-failed"
+	}
+	for _, cc := range first {
+		_ = cc.Close()
+	}
+	for i, c := range socks {
+		if !ask(c, byte(100+i)) {
+			return "setup-failed"
+		}
+	}
+	causeAt := time.Now()
+	var swg sync.WaitGroup
+	for i := 0; i < 3; i++ {
+		swg.Add(1)
+		go func() { defer swg.Done(); s.Stop() }()
+	}
+	swg.Wait()
+	s.Stop()
+	ret, after := 0, int64(-1)
+	select {
+	case <-served:
+		ret = 1
+		after = time.Since(causeAt).Nanoseconds()
+	case <-time.After(2 * time.Second):
+	}
+	time.Sleep(50 * time.Millisecond)
+	done := 1
+	ccMu.Lock()
+	for _, cc := range srvConns {
+		select {
+		case <-cc.Done():
+		default:
+			done = 0
+		}
+	}
+	n := len(srvConns)
+	ccMu.Unlock()
+	if n != 2*k {
+		return fmt.Sprintf("ret %d after %d err conns%d ; done %d onclose 0 0 ; panics 0", ret, after, n, done)
+	}
+	lo, hi := counter.minmax()
+	return fmt.Sprintf("ret %d after %d err - ; done %d onclose %d %d ; panics 0", ret, after, done, lo, hi)
+}
